@@ -1,19 +1,21 @@
 """C12 — a cached function never returns a value computed by different source code.
 
-Model: lean/JoblibModel/FuncCode.lean (`_check_previous_func_code`, `func_code_info`, `_FUNCTION_HASHES`, `_FUNC_CODE_WRITERS`,
-func_code.py — missing / unreadable / garbled / a source —, the entries of one function id); theorems: lean/JoblibProofs/C12.lean;
-driver: lean/Driver/C12.lean.
+Model: lean/JoblibModel/FuncCode.lean (`_check_previous_func_code`, `func_code_info`, the process-global `_FUNCTION_HASHES` and
+`_FUNC_CODE_WRITERS`, and per cache location func_code.py — missing / unreadable / garbled / a source — with the entries of one
+function id); theorems: lean/JoblibProofs/C12.lean; driver: lean/Driver/C12.lean.
 
-A case is a history over ONE function name in one cache directory, split into sessions (interpreter processes):
-  def o k        a new function object o with the source text of version k is created and wrapped with memory.cache (wrapper o)
-  wrap w o       memory.cache(f_o) once more: a second MemorizedFunc on the same function
+A case is a history over ONE function name in 1..3 cache directories, addressed by 1..4 `Memory` objects (`mems`: each has a
+directory `dir` and a spelling `sp` of its path: 0 canonical, 1 `<dir>/.`, 2 `<dir>/../<name>`, 3 relative to the cwd), split into
+sessions (interpreter processes); every session builds all its `Memory` objects anew:
+  def o k m      a new function object o with the source text of version k is created and wrapped with mems[m].cache (wrapper o)
+  wrap w o m     mems[m].cache(f_o) once more: a second MemorizedFunc on the same function, at the same location or another one
   swap o p       f_o.__code__ = <the code object function p was defined with>   (p = o: swap back to the original)
   call w a       the cached function w is called with argument a     (functions log executions)
   check w a      check_call_in_cache, always followed by the identical call
-  clearfn w / clearall
-  damage w kind  func_code.py is deleted or truncated (empty, inside the `# first line:` header, header without number, after the
-                 header, inside a multi-byte character, one byte short, two thirds) — between sessions and between calls
-  fresh          the session ends; the next one starts on the same cache directory
+  clearfn w / clearall m     MemorizedFunc.clear() / mems[m].clear()
+  damage w kind  func_code.py of w's location is deleted or truncated (empty, inside the `# first line:` header, header without
+                 number, after the header, inside a multi-byte character, one byte short, two thirds) — between sessions and between calls
+  fresh          the session ends; the next one starts on the same cache directories
 Every session is a GENERATED PROGRAM — one Python file, rewritten for each session ("edited between sessions") — run in its own
 interpreter: as a script (`__main__` functions), as an imported module (module-level functions), with the defs nested in a
 factory function (nested functions), or with lambdas.  Redefinition under the same name in one session is literally
@@ -24,11 +26,15 @@ out of / into a loop), comment only, docstring only, a blank line, trailing whit
 reordered statements (with and without effect); the same text also appears at other line numbers.  What a version computes is
 obtained by running its plain text, never written down by hand.
 
+Three streams: `main` — one location, one Memory object (the histories this check always ran); `multi` — 2..3 directories and / or
+several Memory objects on one directory, the same function object cached at several locations, `Memory.clear()` and faults at one of
+them; `alias` — one directory under two spellings (F46, a known finding of the tree as it is).
+
 * correspondence: per step (value, executed?, check flag) against the model driver (model configuration = what the tree under
-  test does on the F10 and F38 probes);
+  test does on the F10, F38, writer-key and F46 probes);
 * oracle (no model): every call of a live wrapper whose function's current code has version k returns what version k's plain
-  text returns; and a call is not executed again while the stored code is still its own version's text (no call / check / clear
-  by another text, no damage, since) and the argument was computed under it.
+  text returns; and a call is not executed again while the stored code OF THAT LOCATION is still its own version's text (no call /
+  check / clear by another text there, no damage there, since) and the argument was computed under it there.
 """
 
 import concurrent.futures
@@ -47,6 +53,17 @@ REQUIRED_THEOREMS = [
     "C12.reachable_inv",
     "C12.unchanged_code_keeps_cache",
     "C12.hit_when_code_unchanged",
+    "C12.value_from_own_version_resolved",
+    "C12.locations_independent",
+    "C12.shortcut_implies_directory_is_own",
+    "C12.shortcut_implies_stored_code_is_own",
+    "C12.writer_key_without_location_counterexample",
+    "C12.writer_key_without_location_one_process_counterexample",
+    "C12.writer_key_without_location_value_from_own_version_false",
+    "C12.fixed_on_the_writer_key_witnesses",
+    "C12.aliased_location_counterexample",
+    "C12.aliased_location_value_from_own_version_false",
+    "C12.resolved_on_the_aliased_witness",
     "C12.old_F38_counterexample",
     "C12.old_F38_two_wrappers_counterexample",
     "C12.old_F38_value_from_own_version_false",
@@ -68,17 +85,23 @@ TRUSTED_EXTRA = [
     "leaving the weak table are not modelled",
     "the class of a damaged func_code.py (unreadable / readable garbage) is computed by the generated program from the bytes left "
     "(utf-8 decodable? header number parsable?), independently of joblib, and is an input of the model",
-    "sessions are sequential (one process at a time on the cache directory); concurrent sessions are C11's",
+    "sessions are sequential (one process at a time on the cache directories); concurrent sessions are C11's",
+    "modelled, not verified: a location string denotes one directory throughout a process (no os.chdir under a relative location, no "
+    "symlink retargeted); which strings denote the same directory is an input of the model (the generated programs use `<dir>`, "
+    "`<dir>/.`, `<dir>/../<name>` and a path relative to the cwd)",
 ]
 
-RULE = ("histories of 3..18 operations over 1..3 sessions (interpreter processes) sharing a cache directory, 1..4 versions of "
+RULE = ("histories of 3..18 operations over 1..3 sessions (interpreter processes) sharing 1..3 cache directories addressed by 1..4 "
+        "Memory objects (stream main: one directory, one Memory; stream multi: 2..3 directories and / or two Memory objects on one "
+        "directory, the same function object cached at several locations; stream alias: one directory under two spellings), 1..4 versions of "
         "one same-named function drawn from 13 kinds of edits (constant, operator, indentation-only, comment, docstring, blank line, "
         "trailing whitespace, default argument, renamed local, reordered statements), up to 4 live function objects and 2 extra "
         "wrappers per session, arguments 0..2; definition styles: module-level (imported module), nested def, __main__ script, lambda; "
-        "code-object swaps there and back, check_call_in_cache, MemorizedFunc.clear, Memory.clear, func_code.py deleted / truncated "
-        "at 8 boundary-biased places; non-trivial = a call step; distinct by (style, versions seen so far, versions live in the "
-        "session, the caller's version and argument, whose text is stored, which arguments are cached under it, swapped?, damaged?, "
-        "executed?)")
+        "code-object swaps there and back, check_call_in_cache, MemorizedFunc.clear, Memory.clear of one location, func_code.py of one "
+        "location deleted / truncated at 8 boundary-biased places; non-trivial = a call step; distinct by (style, versions seen so far, "
+        "versions live in the session, the caller's version and argument, whose text is stored at the caller's location, which arguments "
+        "are cached under it there, swapped?, damaged?, executed?; with several locations also: the location, whose text the OTHER "
+        "locations hold, at how many locations the caller's function object is wrapped)")
 
 STYLES = ["module", "nested", "main", "lambda"]
 
@@ -170,7 +193,7 @@ PRELUDE = '''import json, os, sys, warnings
 sys.path.insert(0, os.environ['VERIF_REPO'])
 warnings.simplefilter('ignore')
 from joblib import Memory
-_mem = Memory(%r, verbose=0)
+_mems = [Memory(_p, verbose=0) for _p in %r]
 N = []
 _out = []
 
@@ -211,17 +234,42 @@ def _damage(cf, kind):
 DAMAGES = ["delete", "empty", "inheader", "nonumber", "midnumber", "afterheader", "multibyte", "oneshort", "twothirds"]
 
 
-def program(style, loc, result, ops, pad=0):
+def case_mems(case):
+    """The Memory objects of a case: [{dir, sp}]; histories written before locations existed have one Memory on directory 0."""
+    return case.get("mems") or [dict(dir=0, sp=0)]
+
+
+def mem_key(mem):
+    """The model's name of a location string: the canonical spelling of directory d is d."""
+    return mem["dir"] + 10 * mem.get("sp", 0)
+
+
+def mem_path(workdir, mem):
+    """The path handed to Memory(location=...). The programs run with cwd = workdir."""
+    name = "cache%d" % mem["dir"]
+    sp = mem.get("sp", 0)
+    if sp == 0:
+        return os.path.join(workdir, name)
+    if sp == 1:
+        return os.path.join(workdir, name, ".")
+    if sp == 2:
+        return os.path.join(workdir, name, os.pardir, name)
+    if sp == 3:
+        return name
+    raise core.InfraError(f"unknown spelling {sp}")
+
+
+def program(style, paths, result, ops, pad=0):
     """`pad` lines (and, when odd, another function) are inserted ABOVE everything: the same definitions at other line numbers."""
     src = [f"# line {n} inserted above" for n in range(pad)] + (["def _inserted_above(x):", "    return x", ""] if pad % 2 else [])
-    src += (PRELUDE % loc).split("\n")
+    src += (PRELUDE % (list(paths),)).split("\n")
     for op in ops:
         o = op.get("o")
         w = op.get("w")
         if op["op"] == "def":
-            src += def_text(style, op["k"]) + [f"f_{o} = f", f"k_{o} = f_{o}.__code__", f"c_{o} = _mem.cache(f_{o})", ""]
+            src += def_text(style, op["k"]) + [f"f_{o} = f", f"k_{o} = f_{o}.__code__", f"c_{o} = _mems[{op.get('m', 0)}].cache(f_{o})", ""]
         elif op["op"] == "wrap":
-            src += [f"c_{w} = _mem.cache(f_{o})", "_out.append(['ok'])", ""]
+            src += [f"c_{w} = _mems[{op.get('m', 0)}].cache(f_{o})", "_out.append(['ok'])", ""]
         elif op["op"] == "swap":
             src += [f"f_{o}.__code__ = k_{op['p']}", "_out.append(['ok'])", ""]
         elif op["op"] == "call":
@@ -245,7 +293,7 @@ def program(style, loc, result, ops, pad=0):
         elif op["op"] == "clearfn":
             src += [f"c_{w}.clear(warn=False)", "_out.append(['ok'])", ""]
         elif op["op"] == "clearall":
-            src += ["_mem.clear(warn=False)", "_out.append(['ok'])", ""]
+            src += [f"_mems[{op.get('m', 0)}].clear(warn=False)", "_out.append(['ok'])", ""]
         elif op["op"] == "damage":
             src += [f"_damage(c_{w}, {op['kind']!r})", ""]
     src += [f"open({result!r}, 'w', encoding='utf-8').write(json.dumps(_out))", ""]
@@ -268,7 +316,9 @@ def run_case(case, workdir):
     """Run every session in its own interpreter. Returns one record per op (`def` and `fresh` → ['ok'])."""
     workdir = str(workdir)
     os.makedirs(workdir, exist_ok=True)
-    loc = os.path.join(workdir, "cache")
+    paths = [mem_path(workdir, m) for m in case_mems(case)]
+    for m in case_mems(case):
+        os.makedirs(os.path.join(workdir, "cache%d" % m["dir"]), exist_ok=True)  # `<dir>/../<name>` needs the directory
     style = case["style"]
     fname = "prog.py" if style == "main" else "c12mod.py"
     path = os.path.join(workdir, fname)
@@ -280,7 +330,7 @@ def run_case(case, workdir):
     for si, ops in enumerate(sessions_of(case)):
         with open(path, "w", encoding="utf-8") as f:
             pads = case.get("pads") or [0]
-            f.write(program(style, loc, result, ops, pads[min(si, len(pads) - 1)]))
+            f.write(program(style, paths, result, ops, pads[min(si, len(pads) - 1)]))
         shutil.rmtree(os.path.join(workdir, "__pycache__"), ignore_errors=True)
         if os.path.exists(result):
             os.remove(result)
@@ -308,32 +358,42 @@ def akey(defver, a):
 
 def model_lines(case, recs, cfg):
     """Request lines; None for steps that are no model operation (damage of an absent / intact file)."""
-    lines = [f"reset {cfg[0]} {cfg[1]}"]
+    lines = ["reset " + " ".join(str(b) for b in cfg)]
     idx = []
     ver = {}
     wobj = {}
+    wmem = {}
+    mems = case_mems(case)
     for op, rec in zip(case["ops"], recs):
         k = op["op"]
         ln = None
         if k == "fresh":
-            wobj = {}
+            wobj, wmem = {}, {}
         if k == "def":
             ver[op["o"]] = op["k"]
             wobj[op["o"]] = op["o"]
-            ln = f"def {op['o']} {op['k']} {0 if case['style'] == 'lambda' else 1}"
+            m = wmem[op["o"]] = mems[op.get("m", 0)]
+            ln = f"def {op['o']} {op['k']} {0 if case['style'] == 'lambda' else 1} {m['dir']}"
+            if mem_key(m) != m["dir"]:
+                # the wrapper `def` creates belongs to a Memory addressed under another spelling
+                lines.append(ln)
+                ln = f"wrap {op['o']} {op['o']} {mem_key(m)} {m['dir']}"
         elif k == "wrap":
             wobj[op["w"]] = op["o"]
-            ln = f"wrap {op['w']} {op['o']}"
+            m = wmem[op["w"]] = mems[op.get("m", 0)]
+            ln = f"wrap {op['w']} {op['o']} {mem_key(m)} {m['dir']}"
         elif k == "swap":
             ln = f"swap {op['o']} {op['p']} {ver[op['p']]}"
         elif k in ("call", "check"):
             ln = f"{k} {op['w']} {akey(ver[wobj[op['w']]], op['a'])}"
         elif k == "clearfn":
             ln = f"clearfn {op['w']}"
+        elif k == "clearall":
+            ln = f"clearall {mems[op.get('m', 0)]['dir']}"
         elif k == "damage":
             cls = rec[1] if rec and rec[0] == "damage" else "?"
             if cls in ("delete", "unreadable", "other"):
-                ln = f"damage {cls}"
+                ln = f"damage {wmem[op['w']]['dir']} {cls}"
         else:
             ln = k
         idx.append(None if ln is None else len(lines))
@@ -356,30 +416,53 @@ def canon_model(rep):
 # ----------------------------------------------------------------------------- oracle (no model)
 
 
+class _DirState:
+    """What the oracle knows of one cache directory (the function's sub-directory in it)."""
+
+    def __init__(self):
+        self.owner, self.valid = None, set()  # the version whose text was last certainly written there; arguments computed under it
+        self.deleted = self.damaged = False
+        self.stored_any = False  # a call completed there since the last clear: the directory may hold entries
+        # func_code.py damaged and not certainly rewritten yet; a fresh process (no in-memory shortcut) rewrites it
+        self.dirty = self.healable = False
+
+    def cleared(self, owner):
+        self.owner, self.valid = owner, set()
+        self.deleted = self.damaged = self.dirty = self.healable = self.stored_any = False
+
+
 def judge(case, recs, res):
-    cur, wobj, swapped, defver = {}, {}, set(), {}
-    owner, valid = None, set()
-    deleted = damaged = False
-    stored_any = False  # a call completed since the last clear: the directory may hold entries
-    dirty = healable = False  # func_code.py damaged and not certainly rewritten yet; a fresh process (no in-memory shortcut) rewrites it
+    mems = case_mems(case)
+    ndirs = len({m["dir"] for m in mems})
+    aliased = any(a["dir"] == b["dir"] and mem_key(a) != mem_key(b) for a in mems for b in mems)
+    several = len(mems) > 1
+    cur, wobj, wdir, swapped, defver = {}, {}, {}, set(), {}
+    dirs = {}
     seen_versions, session_sources = set(), set()
     prev_check = None
+
+    def D(d):
+        return dirs.setdefault(d, _DirState())
+
     for j, (op, out) in enumerate(zip(case["ops"], recs)):
         k = op["op"]
         ctx = dict(case=case, step=j, op=op, out=out)
         if k == "fresh":
-            cur, wobj, swapped, session_sources, prev_check = {}, {}, set(), set(), None
-            healable = dirty
+            cur, wobj, wdir, swapped, session_sources, prev_check = {}, {}, {}, set(), set(), None
+            for ds in dirs.values():
+                ds.healable = ds.dirty
             continue
         if k == "def":
             cur[op["o"]] = op["k"]
             defver[op["o"]] = op["k"]
             wobj[op["o"]] = op["o"]
+            wdir[op["o"]] = mems[op.get("m", 0)]["dir"]
             seen_versions.add(op["k"])
             session_sources.add(op["k"])
             continue
         if k == "wrap":
             wobj[op["w"]] = op["o"]
+            wdir[op["w"]] = mems[op.get("m", 0)]["dir"]
             continue
         if k == "swap":
             # the code object function p was DEFINED with
@@ -387,63 +470,82 @@ def judge(case, recs, res):
             swapped.add(op["o"])
             continue
         if k == "clearall":
-            owner, valid, deleted, damaged, dirty, healable = None, set(), False, False, False, False
-            stored_any = False
+            D(mems[op.get("m", 0)]["dir"]).cleared(None)
             continue
+        ds = D(wdir[op["w"]])
         if k == "damage":
             if out[1] in ("delete", "unreadable", "other"):
-                damaged = dirty = True
-                healable = False
-                if out[1] == "delete" and stored_any:
-                    deleted = True
-                owner, valid = None, set()
+                ds.damaged = ds.dirty = True
+                ds.healable = False
+                if out[1] == "delete" and ds.stored_any:
+                    ds.deleted = True
+                ds.owner, ds.valid = None, set()
             continue
         o = wobj[op["w"]]
         mine = cur[o]
         if k == "clearfn":
-            owner, valid, deleted, damaged, dirty, healable = mine, set(), False, False, False, False
-            stored_any = False
+            ds.cleared(mine)
             continue
-        tag = case["style"] + (":code-swap" if o in swapped else ":redefined-in-session" if len(session_sources) > 1 else "")
+        if aliased:
+            tag = case["style"] + ":aliased-location"
+        else:
+            tag = case["style"] + (":code-swap" if o in swapped else ":redefined-in-session" if len(session_sources) > 1 else "")
+            if several:
+                tag += ":several-locations"
         if k == "check":
-            if dirty and healable:
-                dirty = healable = False
-            if owner != mine:
-                owner, valid = mine, set()
-            if dirty:
-                owner, valid = None, set()
+            if ds.dirty and ds.healable:
+                ds.dirty = ds.healable = False
+            if ds.owner != mine:
+                ds.owner, ds.valid = mine, set()
+            if ds.dirty:
+                ds.owner, ds.valid = None, set()
             prev_check = (op["w"], op["a"], out)
             continue
         # call
+        owner = ds.owner
         res.count("call:" + ("stored-text-is-own" if owner == mine else "stored-text-is-other" if owner is not None else "no-known-stored-text"))
         res.count("caller-version=" + (VERSIONS.get(mine) or LAMBDAS[mine])[0])
+        others = sorted(("own" if x.owner == mine else "other" if x.owner is not None else "none") for d2, x in dirs.items() if d2 != wdir[op["w"]])
+        nwrapped = len({wdir[w2] for w2, o2 in wobj.items() if o2 == o})
+        if several:
+            res.count("call@location-%d-of-%d" % (wdir[op["w"]], ndirs))
+            res.count("caller-object-wrapped-at-%d-locations" % nwrapped)
+            if "other" in others and owner == mine:
+                res.count("call:own-here-while-another-location-holds-another-version")
+            if "own" in others and owner != mine and owner is not None:
+                res.count("call:other-here-while-another-location-holds-own-version")
         ak = akey(defver[o], op["a"])
-        expect_hit = owner == mine and ak in valid
+        expect_hit = owner == mine and ak in ds.valid
         if out[0] != "val":
             res.fail("call-raises:" + case["style"], ctx, out)
         else:
             want = plain(mine, op["a"])
             if out[1] != want:
-                sig = "stale-after-func-code-deleted" if deleted else "wrong-version-value:" + tag + (":after-damage" if damaged else "")
-                res.fail(sig, ctx, dict(returned=out[1], own_version=mine, own_version_returns=want, stored_text_last_written_for=owner))
+                sig = ("stale-after-func-code-deleted" if ds.deleted else
+                       "wrong-version-value:" + tag + (":after-damage" if ds.damaged and not aliased else ""))
+                res.fail(sig, ctx, dict(returned=out[1], own_version=mine, own_version_returns=want, stored_text_last_written_for=owner,
+                                        location=wdir[op["w"]]))
             elif expect_hit and out[2]:
-                res.fail("unchanged-code-recomputed:" + tag, ctx, dict(version=mine))
+                res.fail("unchanged-code-recomputed:" + tag, ctx, dict(version=mine, location=wdir[op["w"]]))
             if prev_check is not None and prev_check[:2] == (op["w"], op["a"]) and prev_check[2][0] == "flag":
                 if prev_check[2][1] != (not out[2]):
                     # after func_code.py was deleted the check writes it (answer False) and the entries left behind are served
-                    res.fail("stale-after-func-code-deleted" if deleted else "check-call-in-cache-disagrees:" + tag, ctx,
+                    res.fail("stale-after-func-code-deleted" if ds.deleted else "check-call-in-cache-disagrees:" + tag, ctx,
                              dict(check_said=prev_check[2][1], executed=out[2]))
-            stored_any = True
-            res.nontrivial.add(json.dumps([case["style"], sorted(seen_versions), sorted(session_sources), mine, op["a"],
-                                           "own" if owner == mine else "other" if owner is not None else "none", sorted(valid),
-                                           o in swapped, damaged, out[2]]))
-        if dirty and healable:
-            dirty = healable = False
-        if owner != mine:
-            owner, valid = mine, set()
-        valid.add(ak)
-        if dirty:  # the in-memory shortcut may have answered: the damaged file is possibly still there
-            owner, valid = None, set()
+            ds.stored_any = True
+            key = [case["style"], sorted(seen_versions), sorted(session_sources), mine, op["a"],
+                   "own" if owner == mine else "other" if owner is not None else "none", sorted(ds.valid),
+                   o in swapped, ds.damaged, out[2]]
+            if several:
+                key += [wdir[op["w"]], others, nwrapped, aliased]
+            res.nontrivial.add(json.dumps(key))
+        if ds.dirty and ds.healable:
+            ds.dirty = ds.healable = False
+        if ds.owner != mine:
+            ds.owner, ds.valid = mine, set()
+        ds.valid.add(ak)
+        if ds.dirty:  # the in-memory shortcut may have answered: the damaged file is possibly still there
+            ds.owner, ds.valid = None, set()
         prev_check = None
 
 
@@ -549,6 +651,160 @@ def swap_history(rng, pool):
     return ops
 
 
+def _mems_multi(rng):
+    """Memory objects of a several-location history: mostly two directories, sometimes three, sometimes two Memory objects on one
+    directory (same spelling: the same location)."""
+    r = rng.random()
+    if r < 0.14:
+        return [dict(dir=0, sp=0), dict(dir=0, sp=0)]
+    if r < 0.20:
+        return [dict(dir=0, sp=3), dict(dir=0, sp=3), dict(dir=1, sp=3)]  # all relative: one spelling per directory
+    nd = 2 if r < 0.80 else 3
+    mems = [dict(dir=d, sp=0) for d in range(nd)]
+    if rng.random() < 0.3:
+        mems.append(dict(dir=rng.randrange(nd), sp=0))  # a second Memory object on one of the directories
+    return mems
+
+
+def walk_history(rng, style, pool, mems, n, max_sessions=3):
+    """A random walk like `gen_case`'s, with every wrapper at the location of one of `mems`; biased towards wrapping one function
+    object at several locations and towards calling the same argument everywhere."""
+    ops, live, wraps = [], [], []
+    ver = {}
+    nobj, nw = 0, 100
+    sessions = 1
+    nm = len(mems)
+    hot = rng.choice([0, 0, 1])  # the argument most calls use
+    while len(ops) < n:
+        r = rng.random()
+        if not live or (r < 0.16 and len(live) < 4):
+            nobj += 1
+            ver[nobj] = rng.choice(pool)
+            ops.append(dict(op="def", o=nobj, k=ver[nobj], m=rng.randrange(nm)))
+            live.append(nobj)
+            wraps.append(nobj)
+            if rng.random() < 0.55 and len(wraps) < len(live) + 4:
+                # the same function object cached at another location as well
+                nw += 1
+                ops.append(dict(op="wrap", w=nw, o=nobj, m=rng.choice([m for m in range(nm) if m != ops[-1]["m"]] or [0])))
+                wraps.append(nw)
+        elif r < 0.66:
+            w = rng.choice(wraps)
+            a = rng.choice([hot, hot, hot, 0, 1, 2])
+            if rng.random() < 0.12:
+                ops.append(dict(op="check", w=w, a=a))
+            ops.append(dict(op="call", w=w, a=a))
+        elif r < 0.71 and style != "lambda":
+            cands = [o for o in live if ver[o] not in NO_SWAP]
+            if len(cands) >= 1:
+                ops.append(dict(op="swap", o=rng.choice(cands), p=rng.choice(cands)))
+        elif r < 0.78 and len(wraps) < len(live) + 4:
+            nw += 1
+            ops.append(dict(op="wrap", w=nw, o=rng.choice(live), m=rng.randrange(nm)))
+            wraps.append(nw)
+        elif r < 0.81:
+            ops.append(dict(op="clearfn", w=rng.choice(wraps)))
+        elif r < 0.86:
+            ops.append(dict(op="clearall", m=rng.randrange(nm)))
+        elif r < 0.91:
+            ops.append(dict(op="damage", w=rng.choice(wraps), kind=rng.choice(DAMAGES)))
+        elif r < 0.99 and sessions < max_sessions and len(ops) > 1:
+            ops.append(dict(op="fresh"))
+            live, wraps = [], []
+            sessions += 1
+    while ops and ops[-1]["op"] in ("fresh", "def", "wrap"):
+        ops.pop()
+    return ops
+
+
+def stale_elsewhere_history(rng, pool, mems):
+    """Version v1 is cached at location B (and perhaps at A); the definition changes (next session, or a second live definition);
+    the new version is called at A FIRST — it enters the in-memory tables there — and then at B with every argument v1 cached."""
+    D, C = (lambda o, k, m: dict(op="def", o=o, k=k, m=m)), (lambda w, a: dict(op="call", w=w, a=a))
+    W = lambda w, o, m: dict(op="wrap", w=w, o=o, m=m)  # noqa: E731
+    v1 = rng.choice(pool)
+    v2 = rng.choice([v for v in pool if v != v1] or pool)
+    ma, mb = rng.sample(range(len(mems)), 2) if len(mems) > 1 else (0, 0)
+    args = rng.sample([0, 1, 2], rng.choice([1, 2, 3]))
+    ops = [D(1, v1, mb)] + [C(1, a) for a in args]
+    if rng.random() < 0.4:
+        ops += [W(101, 1, ma), C(101, args[0])]
+    same_process = rng.random() < 0.4
+    if not same_process:
+        ops.append(dict(op="fresh"))
+    ops += [D(2, v2, ma), W(102, 2, mb)]
+    first = rng.choice(["call", "call", "check", "clearfn"])
+    ops += [C(2, args[0])] if first == "call" else [dict(op="check", w=2, a=args[0]), C(2, args[0])] if first == "check" else [dict(op="clearfn", w=2)]
+    order = list(args)
+    rng.shuffle(order)
+    ops += [C(102, a) for a in order] + [C(2, a) for a in order]
+    if same_process:
+        ops += [C(1, a) for a in args] + [C(102, args[0])]  # the older definition is still alive: its own values, at B
+    if rng.random() < 0.5:
+        ops += [dict(op="fresh"), D(3, v2, mb), W(103, 3, ma)] + [C(3, a) for a in args] + [C(103, a) for a in args]
+    return ops
+
+
+def clear_one_history(rng, pool, mems):
+    """One version cached at every location; `Memory.clear()` (or a fault, or MemorizedFunc.clear) at ONE of them; every location is
+    called again, in this process and in the next: the others must still hit."""
+    D, C = (lambda o, k, m: dict(op="def", o=o, k=k, m=m)), (lambda w, a: dict(op="call", w=w, a=a))
+    v = rng.choice(pool)
+    nm = len(mems)
+    args = rng.sample([0, 1, 2], 2)
+    ops = [D(1, v, 0)] + [dict(op="wrap", w=100 + m, o=1, m=m) for m in range(1, nm)]
+    ws = [1] + [100 + m for m in range(1, nm)]
+    for w in ws:
+        ops += [C(w, a) for a in args]
+    victim = rng.randrange(nm)
+    what = rng.choice(["clearall", "clearall", "clearfn", "damage"])
+    ops.append(dict(op="clearall", m=victim) if what == "clearall" else dict(op="clearfn", w=ws[victim]) if what == "clearfn"
+               else dict(op="damage", w=ws[victim], kind=rng.choice(DAMAGES)))
+    order = list(ws)
+    rng.shuffle(order)
+    for w in order:
+        ops += [C(w, a) for a in args]
+    ops += [dict(op="fresh"), D(2, v, 0)] + [dict(op="wrap", w=200 + m, o=2, m=m) for m in range(1, nm)]
+    for w in [2] + [200 + m for m in range(1, nm)]:
+        ops += [C(w, a) for a in args]
+    return ops
+
+
+def gen_multi_case(rng, idx, thorough, label):
+    style = rng.choice(["module", "module", "nested", "main", "main", "lambda"])
+    pool = list(rng.choice(LGROUPS if style == "lambda" else GROUPS))
+    pads = [rng.choice([0, 1, 2, 5]) for _ in range(4)]
+    mems = _mems_multi(rng)
+    shape = rng.random()
+    if shape < 0.25:
+        ops = stale_elsewhere_history(rng, pool, mems)
+    elif shape < 0.37:
+        ops = clear_one_history(rng, pool, mems)
+    else:
+        ops = walk_history(rng, style, pool, mems, rng.randint(4, 26 if thorough else 20))
+    return dict(label=f"{label}{idx}", style=style, mems=mems, ops=ops, pads=pads)
+
+
+def gen_alias_case(rng, idx, thorough, label):
+    """One directory under two spellings (and sometimes a second directory)."""
+    style = rng.choice(["module", "nested", "main", "main", "lambda"])
+    pool = list(rng.choice(LGROUPS if style == "lambda" else GROUPS))
+    sp = rng.sample([0, 1, 2, 3], 2)
+    mems = [dict(dir=0, sp=sp[0]), dict(dir=0, sp=sp[1])] + ([dict(dir=1, sp=0)] if rng.random() < 0.3 else [])
+    if rng.random() < 0.5:
+        D, C = (lambda o, k, m: dict(op="def", o=o, k=k, m=m)), (lambda w, a: dict(op="call", w=w, a=a))
+        v1 = rng.choice(pool)
+        v2 = rng.choice([v for v in pool if v != v1] or pool)
+        a = rng.choice([0, 1])
+        ops = [D(1, v1, 0), D(2, v2, 1), C(1, a), C(2, a), C(1, a), C(2, a), C(1, a)]
+    else:
+        ops = walk_history(rng, style, pool, mems, rng.randint(4, 16), max_sessions=2)
+    return dict(label=f"{label}{idx}", style=style, mems=mems, ops=ops, pads=[rng.choice([0, 1, 2, 5]) for _ in range(4)])
+
+
+GENERATORS = {"main": None, "search": None, "multi": gen_multi_case, "search-multi": gen_multi_case, "alias": gen_alias_case}
+
+
 def corpus_cases():
     D, C, K = (lambda o, k: dict(op="def", o=o, k=k)), (lambda w, a: dict(op="call", w=w, a=a)), (lambda w, a: dict(op="check", w=w, a=a))
     S = lambda o, p: dict(op="swap", o=o, p=p)  # noqa: E731
@@ -573,6 +829,50 @@ def corpus_cases():
         out.append(dict(label="corpus-clearall-then-fresh-" + style, style=style,
                         ops=[D(1, 1), C(1, 0), dict(op="clearall"), C(1, 0), C(1, 1), F, D(2, 1), C(2, 0), C(2, 1),
                              dict(op="clearfn", w=2), C(2, 0), F, D(3, 1), C(3, 0)]))
+    # ---- several locations
+    Dm = lambda o, k, m: dict(op="def", o=o, k=k, m=m)  # noqa: E731
+    Wm = lambda w, o, m: dict(op="wrap", w=w, o=o, m=m)  # noqa: E731
+    AB = [dict(dir=0, sp=0), dict(dir=1, sp=0)]
+    for style in STYLES:
+        a, b = (21, 22) if style == "lambda" else (1, 2)
+        # a reviewer's regression (writer key without the location), across sessions: v1 cached at B; edited; v2 through A, then B
+        out.append(dict(label="corpus-locations-sessions-" + style, style=style, mems=AB,
+                        ops=[Dm(1, a, 1), C(1, 0), C(1, 1), C(1, 0), F, Dm(2, b, 0), Wm(102, 2, 1), C(2, 0), C(102, 0), C(102, 1), C(2, 1),
+                             C(102, 0)]))
+        # ... and in one process (module re-imported: both definitions alive); the older one keeps its own values at B
+        out.append(dict(label="corpus-locations-one-process-" + style, style=style, mems=AB,
+                        ops=[Dm(1, a, 1), C(1, 0), C(1, 1), Dm(2, b, 0), Wm(102, 2, 1), C(2, 0), C(102, 0), C(102, 1), C(2, 1), C(1, 0),
+                             C(102, 0), C(1, 1)]))
+        # one function object at two locations; Memory.clear() of one: the other keeps its cache, in this process and the next
+        out.append(dict(label="corpus-locations-clear-one-" + style, style=style, mems=AB,
+                        ops=[Dm(1, a, 0), Wm(101, 1, 1), C(1, 0), C(101, 0), C(1, 0), C(101, 0), dict(op="clearall", m=0), C(101, 0), C(1, 0),
+                             C(1, 0), F, Dm(2, a, 1), Wm(102, 2, 0), C(2, 0), C(102, 0)]))
+    for style in ("module", "main"):
+        # F10 over two locations: v1 and v2 alive, each cached at A and at B, interleaved
+        out.append(dict(label="corpus-locations-f10-" + style, style=style, mems=AB,
+                        ops=[Dm(1, 1, 0), Dm(2, 2, 1), Wm(101, 1, 1), Wm(102, 2, 0), C(1, 1), C(2, 1), C(101, 1), C(102, 1), C(1, 1), C(2, 1),
+                             C(101, 1), C(102, 1)]))
+        # two Memory objects on ONE directory (one location): what one writes the other sees
+        out.append(dict(label="corpus-two-memories-one-directory-" + style, style=style, mems=[dict(dir=0, sp=0), dict(dir=0, sp=0)],
+                        ops=[Dm(1, 1, 0), Dm(2, 2, 1), Wm(101, 1, 1), C(1, 1), C(2, 1), C(1, 1), C(101, 1), C(2, 1), dict(op="clearall", m=1),
+                             C(1, 1), C(101, 1), C(2, 1), F, Dm(3, 2, 0), Wm(103, 3, 1), C(3, 1), C(103, 1)]))
+        # a fault at one location: the other is not concerned; code swap seen from both locations
+        for kind in ("delete", "inheader", "afterheader"):
+            out.append(dict(label=f"corpus-locations-damage-{kind}-{style}", style=style, mems=AB,
+                            ops=[Dm(1, 1, 0), Wm(101, 1, 1), C(1, 0), C(101, 0), dict(op="damage", w=101, kind=kind), C(1, 0), F, Dm(2, 2, 0),
+                                 Wm(102, 2, 1), C(102, 0), C(2, 0), C(102, 0)]))
+        out.append(dict(label="corpus-locations-code-swap-" + style, style=style, mems=AB,
+                        ops=[Dm(1, 1, 0), Dm(2, 2, 0), Wm(101, 1, 1), C(1, 0), C(101, 0), S(1, 2), C(1, 0), S(1, 1), C(101, 0), C(1, 0), S(1, 2),
+                             C(101, 0), C(1, 0)]))
+    # three directories, all relative to the cwd (one spelling each)
+    out.append(dict(label="corpus-locations-three-relative", style="module", mems=[dict(dir=d, sp=3) for d in range(3)],
+                    ops=[Dm(1, 1, 0), Wm(101, 1, 1), Wm(102, 1, 2), C(1, 0), C(101, 0), C(102, 0), Dm(2, 4, 1), C(2, 0), C(101, 0), C(1, 0),
+                         C(102, 0), dict(op="clearall", m=2), C(102, 0), C(1, 0)]))
+    # F46: one directory under two spellings, F10's history
+    for style in ("module", "nested", "main"):
+        for sp in (1, 2, 3):
+            out.append(dict(label=f"corpus-aliased-location-{sp}-{style}", style=style, mems=[dict(dir=0, sp=0), dict(dir=0, sp=sp)],
+                            ops=[Dm(1, 1, 0), Dm(2, 2, 1), C(1, 1), C(2, 1), C(1, 1), C(2, 1), C(1, 1)]))
     # every kind of edit between sessions, each followed by calls with all cached arguments
     ops = []
     for n, v in enumerate(sorted(VERSIONS)):
@@ -597,17 +897,25 @@ _CFG = {}
 
 
 def impl_cfg(scratch):
-    """(f10, f38): 1 when the tree under test shows the repaired behaviour on the probe history, probed once."""
+    """(f10, f38, wkl, f46): what the tree under test does on four probe histories, probed once.  f10 / f38 / f46: 1 = the repaired
+    behaviour; wkl: 1 = the in-memory shortcut of one location does not answer for another (the writer key contains the location)."""
     key = str(core.REPO)
     if key not in _CFG:
-        D, C = (lambda o, k: dict(op="def", o=o, k=k)), (lambda w, a: dict(op="call", w=w, a=a))
+        D, C = (lambda o, k, m=0: dict(op="def", o=o, k=k, m=m)), (lambda w, a: dict(op="call", w=w, a=a))
         d = os.path.join(str(scratch), "probe")
-        r10 = run_case(dict(label="probe10", style="module", ops=[D(1, 1), D(2, 2), C(1, 1), C(2, 1), C(1, 1)]), d)
-        shutil.rmtree(d, ignore_errors=True)
-        r38 = run_case(dict(label="probe38", style="module",
-                            ops=[D(1, 1), D(2, 2), C(1, 0), dict(op="swap", o=1, p=2), C(1, 0), dict(op="swap", o=1, p=1), C(1, 0)]), d)
-        shutil.rmtree(d, ignore_errors=True)
-        _CFG[key] = (int(r10[-1][:2] == ["val", plain(1, 1)]), int(r38[-1][:2] == ["val", plain(1, 0)]))
+
+        def probe(label, ops, mems=None):
+            r = run_case(dict(label=label, style="module", ops=ops, mems=mems), d)
+            shutil.rmtree(d, ignore_errors=True)
+            return r
+
+        r10 = probe("probe10", [D(1, 1), D(2, 2), C(1, 1), C(2, 1), C(1, 1)])
+        r38 = probe("probe38", [D(1, 1), D(2, 2), C(1, 0), dict(op="swap", o=1, p=2), C(1, 0), dict(op="swap", o=1, p=1), C(1, 0)])
+        rkl = probe("probe-writer-key", [D(1, 1, 1), C(1, 1), dict(op="fresh"), D(2, 2, 0), dict(op="wrap", w=102, o=2, m=1), C(2, 1), C(102, 1)],
+                    [dict(dir=0, sp=0), dict(dir=1, sp=0)])
+        r46 = probe("probe46", [D(1, 1, 0), D(2, 2, 1), C(1, 1), C(2, 1), C(1, 1)], [dict(dir=0, sp=0), dict(dir=0, sp=1)])
+        _CFG[key] = (int(r10[-1][:2] == ["val", plain(1, 1)]), int(r38[-1][:2] == ["val", plain(1, 0)]),
+                     int(rkl[-1][:2] == ["val", plain(2, 1)]), int(r46[-1][:2] == ["val", plain(1, 1)]))
     return _CFG[key]
 
 
@@ -631,6 +939,13 @@ def run_one(case, workdir, driver, res, cfg):
     judge(case, recs, res)
     res.count("style=" + case["style"])
     res.count("sessions=%d" % len(sessions_of(case)))
+    mems = case_mems(case)
+    res.count("directories=%d" % len({m["dir"] for m in mems}))
+    res.count("memory-objects=%d" % len(mems))
+    if any(a["dir"] == b["dir"] and mem_key(a) != mem_key(b) for a in mems for b in mems):
+        res.count("one-directory-under-two-spellings")
+    elif len(mems) > len({m["dir"] for m in mems}):
+        res.count("two-memory-objects-on-one-directory")
     shutil.rmtree(workdir, ignore_errors=True)
 
 
@@ -641,23 +956,40 @@ def _worker(job):
     driver = core.Driver("C12")
     for idx in range(start, start + count):
         rng = random.Random(f"C12/{seed}/{salt}/{idx}")
-        case = gen_case(rng, idx, tier == "thorough", salt)
+        case = (GENERATORS.get(salt) or gen_case)(rng, idx, tier == "thorough", salt)
         run_one(case, os.path.join(scratch, f"{salt}{idx}"), driver, res, cfg)
         if idx < start + 1:
             res.sample(case)
     return res
 
 
-def explore(ctx, n_cases, salt, with_corpus=True):
+def _merge(res, part):
+    """`memcache.merge`, but with the oracle failures thinned per SIGNATURE (at most 5 each) instead of cut at a total: the failures of
+    the known findings (F39, F46: several per history) must not use up the room a failure with a new signature needs."""
     from .. import memcache
 
+    fails, part.oracle_failures = part.oracle_failures, []
+    memcache.merge(res, part)
+    per = {}
+    for f in res.oracle_failures:
+        per[f["signature"]] = per.get(f["signature"], 0) + 1
+    for f in fails:
+        if per.get(f["signature"], 0) < 5:
+            per[f["signature"]] = per.get(f["signature"], 0) + 1
+            res.oracle_failures.append(f)
+
+
+def explore(ctx, streams, with_corpus=True):
+    """`streams`: [(salt, number of cases)] — the salt selects the generator (`GENERATORS`)."""
     core.use_repo()
     res = Result()
     res.rule = RULE
     cfg = impl_cfg(ctx.scratch)
     res.extra["implementation"] = dict(
         in_memory_shortcut="checks the writer of func_code.py (F10 repaired)" if cfg[0] else "_FUNCTION_HASHES only (before F10)",
-        func_code_info="records the code object its source was read for (F38 repaired)" if cfg[1] else "keeps the first code object seen (F38)")
+        func_code_info="records the code object its source was read for (F38 repaired)" if cfg[1] else "keeps the first code object seen (F38)",
+        writer_key="names the location" if cfg[2] else "one slot for all locations (answers for a location it never read)",
+        writer_key_spelling="the resolved directory (F46 repaired)" if cfg[3] else "the location string as given (F46: two spellings of one directory = two slots)")
     driver = ctx.driver()
     workers = min(16, os.cpu_count() or 1)
     if with_corpus:
@@ -665,15 +997,19 @@ def explore(ctx, n_cases, salt, with_corpus=True):
         chunks = [cc[i::workers] for i in range(workers)]
         with concurrent.futures.ProcessPoolExecutor(max_workers=workers) as ex:
             for part in ex.map(_corpus_worker, [(str(ctx.scratch), ch, cfg) for ch in chunks if ch]):
-                memcache.merge(res, part)
+                _merge(res, part)
         res.count("corpus-cases", len(cc))
-    per = max(1, (n_cases + workers * 3 - 1) // (workers * 3))
-    jobs = [(ctx.seed, ctx.tier, str(ctx.scratch), salt, s, min(per, n_cases - s), cfg) for s in range(0, n_cases, per)]
+    jobs = []
+    for salt, n_cases in streams:
+        per = max(1, (n_cases + workers * 3 - 1) // (workers * 3))
+        jobs += [(ctx.seed, ctx.tier, str(ctx.scratch), salt, s, min(per, n_cases - s), cfg) for s in range(0, n_cases, per)]
+        res.count("stream-%s-cases" % salt, n_cases)
     with concurrent.futures.ProcessPoolExecutor(max_workers=workers) as ex:
         for part in ex.map(_worker, jobs):
-            memcache.merge(res, part)
-    bad = ["", "call 1", "def 1 1", "def 1 1 2", "reset", "reset 1", "reset 2 1", "swap 1 2", "call x 1", "fresh now", "damage", "damage torn", "wrap 1"]
-    replies = driver.run(["reset 1 1"] + bad)
+            _merge(res, part)
+    bad = ["", "call 1", "def 1 1", "def 1 1 2", "def 1 1 1", "def 1 1 2 0", "reset", "reset 1", "reset 1 1", "reset 2 1 1 0", "swap 1 2", "call x 1",
+           "fresh now", "damage", "damage torn", "damage other", "damage 0 torn", "wrap 1", "wrap 1 1", "wrap 1 1 0", "clearall", "clearall x"]
+    replies = driver.run(["reset 1 1 1 0"] + bad)
     for b, rep in zip(bad, replies[1:]):
         if rep != "bad-op":
             res.diverge("malformed-request", b, "bad-op", rep)
@@ -705,8 +1041,10 @@ def run(ctx):
             raise core.InfraError("replay file has no history")
         run_one(case, os.path.join(str(ctx.scratch), "replay"), ctx.driver(), res, impl_cfg(ctx.scratch))
         return res
-    return explore(ctx, 2500 if ctx.thorough else 450, "main")
+    if ctx.thorough:
+        return explore(ctx, [("main", 2500), ("multi", 4000), ("alias", 400)])
+    return explore(ctx, [("main", 450), ("multi", 260), ("alias", 30)])
 
 
 def search(ctx, res):
-    return explore(ctx, 3000, "search", with_corpus=False)
+    return explore(ctx, [("search", 3000), ("search-multi", 2500)], with_corpus=False)
